@@ -287,6 +287,48 @@ def classify_loop(ctx, b, cfg, E, h, blocks):
                     nm_l = b.local_name(l)
                     if any(c[0] == "call" and c[3] == x for c in walk(ev) if len(c) > 3) and re.search(r"\b%s\b" % re.escape(nm_l), recv):
                         return "shrinking-slice", str(ie[2][0][1])
+    # advancing offset: `while let Some(pos) = s[from..].find(p) { ..; from = from + pos + k }` with k >= 1:
+    # the search start strictly increases and `find` returns None once nothing is left
+    for x in sorted(blocks):
+        for s in b.blocks[x]["stmts"]:
+            if s["k"] != "assign" or s["lhs"]["p"]:
+                continue
+            l = s["lhs"]["l"]
+            if not any(d[1] not in blocks for d in b.defs().get(l, [])):
+                continue
+            e = E.rvalue(s["rv"])
+            terms = []
+
+            def flat(z):
+                while z[0] == "proj":
+                    z = z[1]
+                if z[0] == "bin" and z[1].startswith("Add"):
+                    flat(z[2])
+                    flat(z[3])
+                else:
+                    terms.append(z)
+            flat(e)
+            me = ("var", l, b.local_name(l))
+            consts = [z[1] for z in terms if z[0] == "const" and isinstance(z[1], int)]
+            others = [z for z in terms if z != me and z[0] != "const"]
+            if terms.count(me) == 1 and consts and min(consts) >= 1 and all(any(c[0] == "call" and re.search(r"<impl str>::(find|rfind)$|<impl \[T\]>::(iter|position)$|Iterator>?::position$", c[1]) for c in walk(z)) for z in others) and len(terms) >= 2:
+                outside = set(range(cfg.n)) - set(blocks)
+                r = set()
+                for y in cfg.succ[h]:
+                    if y in blocks and y != x:
+                        r |= cfg.reach(y, avoid=outside | {x, h})
+                if any(h in cfg.succ[z] for z in r) or x == h:
+                    continue
+                # the loop is left when the search finds nothing
+                for y in blocks:
+                    tt = b.blocks[y]["term"]
+                    if tt and tt["k"] == "switch":
+                        ee = E.operand(tt["op"])
+                        finds = [c for c in walk(ee) if c[0] == "call" and re.search(r"<impl str>::find$", c[1])] if ee[0] == "discr" else []
+                        # ... and the search starts at the advancing offset itself: `s[from..].find(..)`
+                        from_l = any(a[0] == "agg" and a[1].endswith("RangeFrom") and a[2] and a[2][0] == me for c in finds for a in walk(c))
+                        if finds and from_l and any(z not in blocks for z in list(tt["targets"]) + [tt["otherwise"]]):
+                            return "advancing-offset", str(min(consts))
     # cursor / counter loops: recognise by the statements that change the loop-carried value
     carried = []
     for x in sorted(blocks):
